@@ -50,6 +50,18 @@ def peek_contract(facts):
                         er = ir.enum_ref(r.get("rhs"))
                         if er and er[1] == "BREAK" and any(path(x.get("e")) == path(r["lhs"]) for x in rets):
                             special = True
+    # the same decision as a conditional expression: `return byte == BREAK ? BREAK : major(byte);`
+    for r in rets:
+        for c in ir.walk(r.get("e")):
+            if c.get("k") == "Cond":
+                cmpn = unwrap_all_casts(c.get("c"))
+                if isinstance(cmpn, dict) and cmpn.get("k") == "Bin" and cmpn.get("op") == "==":
+                    sides = [unwrap_all_casts(cmpn["lhs"]), unwrap_all_casts(cmpn["rhs"])]
+                    isbrk = [x for x in sides if isinstance(x, dict) and x.get("d") == "enumconst" and x.get("n") == "BREAK"]
+                    ismp = [x for x in sides if isinstance(x, dict) and decoder.is_mp_deref(x) is not None]
+                    er = ir.enum_ref(c.get("a"))
+                    if len(isbrk) == 1 and len(ismp) == 1 and er and er[1] == "BREAK":
+                        special = True
     return ("BREAK" if special else "MAJOR"), f
 
 
@@ -888,6 +900,8 @@ def check_string_accumulates(run, rule):
 def check(run):
     from . import C05
     C05.check_window_state(run, "R07.10")       # a stale peek answers for the wrong item
+    from .. import derived as _derived
+    _derived.report(run, "R07.12", ["CDNS::CdnsDecoder", "CDNS::CdnsReader"])
     C05.check_typestate(run, "R07.11")          # bytes are taken from inside the window only: an item that straddles a refill decodes like any other
     check_string_accumulates(run, "R07.9")
     check_skip(run, "R07.1", "R07.3")
